@@ -862,6 +862,31 @@ type Effects struct {
 	Own    map[*ssa.Function]map[string]bool // unconditional direct effects (incl. external table)
 	Cond   map[*ssa.Function]map[int]map[string]bool // direct effects executed only if bool param #i is true
 	From   map[*ssa.Function]map[string]bool // effects inherited from callees
+	// CBParams: functions that invoke one of their own func-typed parameters
+	// (Iterate*-style helpers): parameter index -> true. The callback's effects are
+	// attributed to each caller's actual argument, not to the helper.
+	CBParams map[*ssa.Function]map[int]bool
+}
+
+// callbackParamSite: the call invokes a func-typed parameter of its own function.
+func callbackParamIdx(site ssa.CallInstruction) int {
+	com := site.Common()
+	if com.IsInvoke() {
+		return -1
+	}
+	p, ok := com.Value.(*ssa.Parameter)
+	if !ok {
+		return -1
+	}
+	if _, isSig := p.Type().Underlying().(*types.Signature); !isSig {
+		return -1
+	}
+	for i, q := range p.Parent().Params {
+		if q == p {
+			return i
+		}
+	}
+	return -1
 }
 
 // flagParamOf: if instruction in lies in a region executed only when a bool
@@ -967,7 +992,8 @@ func isExternalKeeperCall(ci ssa.CallInstruction) (string, bool) {
 func computeEffects(w *World) *Effects {
 	e := &Effects{w: w, R: newResolver(w), Direct: map[*ssa.Function][]Access{},
 		Sum: map[*ssa.Function]map[string]bool{}, Own: map[*ssa.Function]map[string]bool{},
-		Cond: map[*ssa.Function]map[int]map[string]bool{}, From: map[*ssa.Function]map[string]bool{}}
+		Cond: map[*ssa.Function]map[int]map[string]bool{}, From: map[*ssa.Function]map[string]bool{},
+		CBParams: map[*ssa.Function]map[int]bool{}}
 	var fns []*ssa.Function
 	for f := range w.AllFuncs {
 		if f.Pkg == nil && f.Parent() == nil {
@@ -1021,6 +1047,46 @@ func computeEffects(w *World) *Effects {
 		e.Sum[f] = s
 		e.Own[f] = own
 		e.From[f] = map[string]bool{}
+		for _, ci := range calls(f) {
+			if idx := callbackParamIdx(ci); idx >= 0 {
+				if e.CBParams[f] == nil {
+					e.CBParams[f] = map[int]bool{}
+				}
+				e.CBParams[f][idx] = true
+			}
+		}
+	}
+	// transitive callback parameters: a wrapper that hands its own func parameter on
+	// to an Iterate*-style helper is such a helper itself.
+	for grew := true; grew; {
+		grew = false
+		for _, f := range fns {
+			n := w.CG.Nodes[f]
+			if n == nil {
+				continue
+			}
+			for _, ed := range n.Out {
+				cb := e.CBParams[ed.Callee.Func]
+				if cb == nil || ed.Site == nil {
+					continue
+				}
+				for idx := range cb {
+					if p, ok := argFor(ed.Site, idx).(*ssa.Parameter); ok && p.Parent() == f {
+						for i, q := range f.Params {
+							if q == p {
+								if e.CBParams[f] == nil {
+									e.CBParams[f] = map[int]bool{}
+								}
+								if !e.CBParams[f][i] {
+									e.CBParams[f][i] = true
+									grew = true
+								}
+							}
+						}
+					}
+				}
+			}
+		}
 	}
 	// fixpoint over the call graph
 	changed := true
@@ -1054,7 +1120,38 @@ func computeEffects(w *World) *Effects {
 			}
 			if n := w.CG.Nodes[f]; n != nil {
 				for _, ed := range n.Out {
+					if ed.Site != nil && callbackParamIdx(ed.Site) >= 0 {
+						continue // callback invocation: attributed to the callers' arguments
+					}
 					add(ed.Callee.Func, ed.Site)
+					// actual callback arguments handed to an Iterate*-style helper
+					if cb := e.CBParams[ed.Callee.Func]; cb != nil && ed.Site != nil {
+						for idx := range cb {
+							switch a := argFor(ed.Site, idx).(type) {
+							case *ssa.MakeClosure:
+								if fn, ok := a.Fn.(*ssa.Function); ok {
+									add(fn, nil)
+								}
+							case *ssa.Function:
+								add(a, nil)
+							case nil:
+							case *ssa.Parameter:
+								if a.Parent() == f && e.CBParams[f] != nil {
+									continue // passed through: attributed to f's own callers
+								}
+							default:
+								// passed through / dynamic: fall back to the call graph's
+								// (conflated) resolution of the helper's callback site
+								for _, ci := range calls(ed.Callee.Func) {
+									if callbackParamIdx(ci) == idx {
+										for _, t := range w.siteOut[ci] {
+											add(t, nil)
+										}
+									}
+								}
+							}
+						}
+					}
 				}
 			}
 			for _, a := range f.AnonFuncs {
